@@ -254,6 +254,14 @@ theorem sum_sub_list (u v : Nat → Rat) (n : Nat) :
     ((List.range n).map fun i => u i - v i).sum = ((List.range n).map u).sum - ((List.range n).map v).sum := by
   rw [← finset_sum_range_eq_listQ, ← finset_sum_range_eq_listQ, ← finset_sum_range_eq_listQ, Finset.sum_sub_distrib]
 
+/-- `Σ_i C(k,i) b^i ∫_{-1}^{1} x^(k-i) dx = ((b+1)^(k+1) − (b−1)^(k+1))/(k+1)` -/
+theorem sum_choose_refIntQ_h1 (k : Nat) (b : Rat) :
+    ((List.range (k + 1)).map fun i => (k.choose i : Rat) * b ^ i * refIntQ false [k - i]).sum =
+      ((b + 1) ^ (k + 1) - b ^ (k + 1)) / ((k + 1 : Nat) : Rat) - ((b + -1) ^ (k + 1) - b ^ (k + 1)) / ((k + 1 : Nat) : Rat) := by
+  rw [← antiderivative_sum k b 1, ← antiderivative_sum k b (-1), ← sum_sub_list]
+  congr 1; apply List.map_congr_left; intro i _
+  rw [refIntQ_h1]; ring
+
 theorem subdiv_s1 (k : Nat) : mapsQ (refIntQ true) Gen.refMapsS1.maps [k] =
     refIntQ true [k] * (2 : Rat) ^ (Gen.refMapsS1.ce + Gen.refMapsS1.ae * esum [k]) := by
   have hrows : Gen.refMapsS1.maps.map RefMap.rows = [[[0, 1]], [[1, 1]]] := by decide
